@@ -31,6 +31,11 @@ def make(sysname, newton=False):
         mesh = mesh_from_groups(np.array([[0.0, 0], [1.0, 0]]), {ElemType.SEG2: [[0, 1]]})
         Ke = KVEC[None]
         dofn = 2
+    elif sysname == "adv":
+        # diffusion + advection: the element matrices, hence the assembled operator, are not symmetric
+        mesh = mesh_from_groups(np.array([[float(i), 0] for i in range(4)]), {ElemType.SEG2: [[0, 1], [1, 2], [2, 3]]})
+        Ke = np.array([k * B + np.array([[-1.0, 1.0], [-1.0, 1.0]]) for k in (4, 2, 6)])
+        dofn = 1
     else:
         conn, ks = SPRINGS[sysname]
         mesh = mesh_from_groups(np.array([[float(i), 0] for i in range(4)]), {ElemType.SEG2: conn})
@@ -74,6 +79,8 @@ def replay(job):
             continue  # every dof prescribed, no equation left: scipy's lsq_linear / lgmres reject empty systems (not a statement about the property)
         if mode == "newton" and beh["sys"] == "orph" and any(d == 2 for d, _ in beh["neu"]):
             continue  # a load on the orphan dof: the unit diagonal the library adds is not part of the harness's residual (harness artefact)
+        if mode == "cg" and beh["sys"] == "adv":
+            continue  # conjugate gradients presuppose a symmetric positive-definite operator
         if mode == "lagrange" and (has_dup or not beh["free"]):
             continue  # a dof constrained twice makes the bordered system singular by construction: outside the property
         sim = make(beh["sys"], newton=(mode == "newton"))
